@@ -6,7 +6,7 @@ use crate::util::*;
 use proptest::prelude::*;
 use serde::{Deserialize, Serialize};
 use serde_json::json;
-use text2num::{replace_numbers_in_text, text2digits};
+use text2num::{find_numbers, replace_numbers_in_text, text2digits};
 
 #[derive(Clone, Debug, Hash, Serialize, Deserialize)]
 pub struct Case {
@@ -53,7 +53,7 @@ impl Property for C11 {
         "C11"
     }
     fn rule(&self) -> String {
-        "Metamorphic. Generated: (language, text s from the clean/dirty sentence generators with thresholds that make linking words matter, recasing r in {all upper, all lower, capitalised words, per-character by a random mask}) applied only to characters whose case mapping is one-to-one and keeps the lowercase form (ß, İ, final sigma ... are left alone; cases where lower(r(s)) != lower(s) are discarded and counted). Oracle: the tokenizer yields the same number of tokens; occurrences(r(s), t) == occurrences(s, t) in span, text, value bits and flag; text2digits(r(s)) == text2digits(s); rewrite(r(s), t) == splice of the recased tokens with those occurrences (untouched words keep the case they were given). Non-trivial = distinct (s, r) where s has >= 1 occurrence at threshold 0 and r changes at least one letter inside an occurrence or in a linking word lying between two numbers.".into()
+        "Metamorphic. Generated: (language, text s from the clean/dirty sentence generators with thresholds that make linking words matter, recasing r in {all upper, all lower, capitalised words, per-character by a random mask}) applied only to characters whose case mapping is one-to-one and keeps the lowercase form (ß, İ, final sigma ... are left alone; cases where lower(r(s)) != lower(s) are discarded and counted). Oracle: the tokenizer yields the same number of tokens; occurrences(r(s), t) == occurrences(s, t) in span, text, value bits and flag; text2digits(r(s)) == text2digits(s); the occurrences of own-token streams built from the tokens of s and of r(s), carrying the same separation / not-a-number hints (hint bytes = mask bytes), with all tokens and reduced to word tokens, are equal; rewrite(r(s), t) == splice of the recased tokens with those occurrences (untouched words keep the case they were given). Non-trivial = distinct (s, r) where s has >= 1 occurrence at threshold 0 and r changes at least one letter inside an occurrence or in a linking word lying between two numbers.".into()
     }
     fn strategy(&self, _tier: Tier) -> BoxedStrategy<Case> {
         // thresholds biased to values that hide small numbers, so linking words decide
@@ -88,6 +88,25 @@ impl Property for C11 {
         let want = splice(&t2, &o1);
         if out != want {
             return Err(format!("[{}] rewrite of the recased text {:?} = {:?}, expected {:?} (untouched words keep their case)", c.lang, r, out, want));
+        }
+        // own-token streams carrying separation / not-a-number hints (hint bytes = the mask bytes), with all tokens and
+        // reduced to the word tokens: the paths that only hinted streams reach must not look at the raw text either
+        for words_only in [false, true] {
+            let mk = |t: &[text2num::verif_hooks::BasicToken]| -> Vec<Tk> {
+                let mut v: Vec<Tk> = t.iter().map(|x| x.text.as_str()).filter(|x| !words_only || is_word(x)).enumerate().map(|(i, x)| Tk::new(i, x)).collect();
+                apply_hints(&mut v, &c.mask);
+                v
+            };
+            let (s1, s2) = (mk(&t1), mk(&t2));
+            if s1.len() != s2.len() || s1.iter().zip(&s2).any(|(a, b)| a.lower != b.lower || a.sep != b.sep || a.nan != b.nan) {
+                obs.exclude("per-token-case-mapping-differs");
+                continue;
+            }
+            let (h1, h2) = (occs(find_numbers(s1.iter(), lg, th)), occs(find_numbers(s2.iter(), lg, th)));
+            if h1 != h2 {
+                return Err(format!("[{}] threshold {}: recasing changed the occurrences of a hinted token stream (hint bytes {:?}, words only: {})\n {:?} -> {:?}\n {:?} -> {:?}", c.lang, fmt_th(c.th_bits), c.mask, words_only, s1.iter().map(|t| t.text.as_str()).collect::<Vec<_>>(), h1, s2.iter().map(|t| t.text.as_str()).collect::<Vec<_>>(), h2));
+            }
+            obs.label_if(s1.iter().any(|t| t.sep || t.nan || t.pause_after) && !h1.is_empty(), "hinted-stream-with-occurrences");
         }
         // classification
         obs.label(["mode:upper", "mode:lower", "mode:capitalised", "mode:per-char"][c.mode.min(3) as usize]);
